@@ -28,7 +28,7 @@ struct DtxSim {
   // receiver statistics
   double gap_eG = 0, gap_eP = 0; long gap_n = 0;
   double post_eG = 0, post_eR = 0; long post_n = 0; int64_t post_from48 = -1;
-  bool drop_next = false; int64_t lost_recent48 = -1, last_tiny48 = -1;
+  bool drop_next = false; int64_t lost_recent48 = -1, last_tiny48 = -1, last_loss48 = -1;
   bool ever_nonsilent = false, run_started_before_any_sound = false;
   explicit DtxSim(Run &r) : run(r) {}
 
@@ -181,7 +181,9 @@ struct DtxSim {
       run.api_ok += 2;
       if (lost) { run.count("rx_lost"); lost_recent48 = t0; } else if (lost_recent48 >= 0 && t0 >= lost_recent48 + 1000 * MS) lost_recent48 = -1;
       // near-silence in the gap: digital silence preceded by >= 1 s of it
-      if (m_dtx && in_silence && silent && silence_start48 >= 0 && t0 >= silence_start48 + 1000 * MS && silence_start48 > 0) {
+      // (a lost packet hands the gap to concealment of whatever came before - C09's subject; the clock restarts after a loss)
+      if (lost) last_loss48 = t0;
+      if (m_dtx && bytes_per_frame >= 8 && in_silence && silent && silence_start48 >= 0 && t0 >= std::max(std::max(silence_start48, last_loss48), last_ctl48) + 1000 * MS && silence_start48 > 0) {
         gap_eG += energy(pg); gap_eP += energy(pp); gap_n += (long)pg.size();
       }
       // normal audio afterwards: from 500 ms after a loud burst resumed, for as long as it lasts
